@@ -47,6 +47,7 @@ Mutexes   == Scn.mutex                  \* FALSE: the implementation before comm
 Crashes   == Scn.crash                  \* a process crash may happen once
 LnFree    == Scn.ln = "any"             \* conformance mode: any Lightning answer at any time
 ReleaseByQuote == Scn.releasecheck      \* FALSE: the implementation before commit d621dd9 (must fail)
+PollNotFound == Scn.pollnotfound        \* TRUE: a variant in which a poll treats "no such payment" as a failed payment
 PollGuard == Scn.pollguard              \* FALSE: the implementation before the meltsInProgress guard (must fail)
 
 VARIABLES used, pend, sigs, lqs, mqs,   \* storage
@@ -146,7 +147,7 @@ PollBody(p, q, base, ExitTo(_)) ==
   \/ /\ pc[p] = base \o "2" /\ Label(p, "ln:OutgoingPaymentStatus")
      /\ \E b \in StatusOf(q) :
           IF b = "succeeded" THEN Goto(p, base \o "3") /\ UNCHANGED <<mu, res>>
-          ELSE IF b = "failed" THEN Goto(p, base \o "6") /\ UNCHANGED <<mu, res>>
+          ELSE IF b = "failed" \/ (b = "notfound" /\ PollNotFound) THEN Goto(p, base \o "6") /\ UNCHANGED <<mu, res>>
           ELSE ExitTo("ok:PENDING")
      /\ UNCHANGED <<DB, LN, GH, CR, loc>>
   \/ /\ pc[p] = base \o "3" /\ Label(p, "db:GetPendingProofsByQuote")
